@@ -60,6 +60,37 @@ DSTYPES = [0x0001, 0x0000, 0x0102, 0xFFFF, 0x0100, 0x0001]
 
 
 def run_case(cf, fields, data, M, pc_id, groups, reception, ts_name, frag_source='ref', real_ds=False, dstype=1):
+    """One reception, then - after the application has done what it likes with the message object it was given
+    (renumbered it, annotated it, detached the data set) - a second reception of the very same PDUs: what was
+    received earlier belongs to the application and must not show in later messages."""
+    n = receive_once(cf, fields, data, M, pc_id, groups, reception, ts_name, frag_source, real_ds, dstype, scramble=True)
+    try:
+        receive_once(cf, fields, data, M, pc_id, groups, reception, ts_name, frag_source, real_ds, dstype)
+    except Violation as v:
+        raise Violation(v.key + ':second-reception', v.what + ' [second reception of the same PDUs, after the application '
+                        'modified the message object it received first]', v.case)
+    return n
+
+
+def scramble_message(msg):
+    cs = msg.command_set
+    for el in list(cs):
+        try:
+            if el.VR == 'US' and el.tag != (0x0000, 0x0100):
+                el.value = (int(el.value) + 1001) & 0xFFFF
+            elif el.VR == 'UI':
+                el.value = '1.2.3.999'
+        except Exception:
+            pass
+    cs.ErrorComment = 'seen by the application'
+    try:
+        msg.data_set = None
+    except Exception:
+        pass
+
+
+def receive_once(cf, fields, data, M, pc_id, groups, reception, ts_name, frag_source='ref', real_ds=False, dstype=1,
+                 scramble=False):
     """Feed one grouping of one message to a fresh DIMSEDecoder and check everything."""
     from pynetdicom2 import fsm, pdu, dsutils, asceprovider, dimsemessages, applicationentity
     import pynetdicom2
@@ -180,6 +211,8 @@ def run_case(cf, fields, data, M, pc_id, groups, reception, ts_name, frag_source
                     ds.close()
                 except Exception:
                     pass
+        if scramble:
+            scramble_message(msg)
         return len(frags)
     finally:
         if tmpdir:
